@@ -1,6 +1,6 @@
 SPECIFICATION Spec
 CONSTANTS
   MaxLen = 14
-INVARIANTS NoUnderflow BracketInv InRange ResultLaw
+INVARIANTS PwIsPow NoUnderflow BracketInv InRange ResultLaw
 PROPERTY Terminates
 CHECK_DEADLOCK FALSE
